@@ -59,7 +59,10 @@ int main(int argc, char **argv) {
 			same("vtmf-group-roundtrip", s, grp(v2));
 			Rec("vtmfgroup").d(it % 2).d(s.size());
 
-			PedersenCommitmentScheme com(1 + gen().below(4), F, G);
+			// generator counts around the fixed-base table limit TMCG_MAX_FPOWM_N (only the first 256 generators have tables)
+			static const size_t NGEN[] = { 1, 2, 3, 4, TMCG_MAX_FPOWM_N - 1, TMCG_MAX_FPOWM_N, TMCG_MAX_FPOWM_N + 1, 300, TMCG_MAX_CARDS };
+			size_t ngen = (it == 0) ? TMCG_MAX_FPOWM_N + 1 : NGEN[gen().below(A.thorough() ? 9 : 8)];
+			PedersenCommitmentScheme com(ngen, F, G);
 			s = grp(com); std::istringstream in2(s);
 			PedersenCommitmentScheme com2(com.g.size(), in2, F, G);
 			if (!com2.CheckGroup()) propfail("pedersen-group-roundtrip", "re-imported commitment scheme fails CheckGroup");
@@ -67,7 +70,7 @@ int main(int argc, char **argv) {
 			Rec("comgroup").d(com.g.size()).d(s.size());
 
 			v.KeyGenerationProtocol_GenerateKey(); v.KeyGenerationProtocol_Finalize();
-			GrothVSSHE vs(2 + gen().below(3), v.p, v.q, v.k, v.g, v.h, 24, F, G);
+			GrothVSSHE vs((it == 1) ? TMCG_MAX_FPOWM_N + 2 : 2 + gen().below(3), v.p, v.q, v.k, v.g, v.h, 24, F, G);
 			s = grp(vs); std::istringstream in3(s);
 			GrothVSSHE vs2(vs.com->g.size(), in3, 24, F, G);
 			if (!vs2.CheckGroup()) propfail("vsshe-group-roundtrip", "re-imported GrothVSSHE parameters fail CheckGroup");
